@@ -21,7 +21,7 @@ RULE = ('case = (JSON-like tree with placeholder strings at random depths, globa
         'non-trivial = tree holds >=1 string with a defined placeholder at depth >=1; distinct = hash(tree, vars)')
 REQUIRED = ['trees', 'strings_substituted', 'strings_undefined_only', 'nonstring_leaves_checked', 'second_application',
             'copies_checked', 'config_cases', 'uses_path_substituted', 'object_args_substituted', 'context_values_substituted',
-            'config_object_uses_checked', 'context_reuse_configs', 'path_parameters_checked', 'gv_style_property', 'gv_style_inherited', 'gv_style_module']
+            'config_object_uses_checked', 'context_reuse_configs', 'path_parameters_checked', 'context_uses_paths_with_placeholder', 'gv_style_property', 'gv_style_inherited', 'gv_style_module']
 ASSUMPTIONS = ['strings where a `{` occurs inside an open brace pair ({{A}}, {a{B}}) are ambiguous: only idempotence, type and '
                'non-interference are checked there',
                'mapping keys, tuples/sets, dunder attribute names and replacement values containing braces are outside the checked text oracle']
@@ -286,11 +286,11 @@ def check_config_case(rng, res: CaseResult):
         class Probe(Task):
             class Meta:
                 parameters = [Parameter('own'), Parameter('ctx_param'), Parameter('obj'), Parameter('lst'),
-                              Parameter('ctx_file_param'), Parameter('pth', dtype=Path, default=None)]
+                              Parameter('ctx_file_param'), Parameter('pth', dtype=Path, default=None), Parameter('ctx_used_param', default=None)]
 
-            def run(self, own, ctx_param, obj, lst, ctx_file_param, pth) -> dict:
+            def run(self, own, ctx_param, obj, lst, ctx_file_param, pth, ctx_used_param) -> dict:
                 return {'own': own, 'ctx_param': ctx_param, 'obj_path': obj.path, 'obj_items': obj.items, 'lst': lst,
-                        'ctx_file_param': ctx_file_param, 'pth': [type(pth).__name__, str(pth)]}
+                        'ctx_file_param': ctx_file_param, 'pth': [type(pth).__name__, str(pth)], 'ctx_used_param': ctx_used_param}
 
         class UsedProbe(Task):
             class Meta:
@@ -322,6 +322,11 @@ def check_config_case(rng, res: CaseResult):
         }
         ctx_kind = rng.choice(['dict', 'list'])
         ctx_dict = {'ctx_param': 'c-{A}-{U}'}
+        # a context that pulls in another context file through a `uses` path holding a placeholder (one string or a list)
+        ctx_uses = rng.choice([None, 'list', 'str'])
+        if ctx_uses:
+            (tmp / sub / 'ctx_used.json').write_text(json.dumps({'ctx_used_param': 'cu-{A}-{U}'}))
+            ctx_dict['uses'] = ['{DIR}/ctx_used.json'] if ctx_uses == 'list' else '{DIR}/ctx_used.json'
         uo_in_ctx = uses_object and rng.random() < 0.7
         if uo_in_ctx:
             ctx_dict['uo_ctx'] = 'uoc-{A}-{U}'
@@ -329,7 +334,7 @@ def check_config_case(rng, res: CaseResult):
         context = ctx_dict if ctx_kind == 'dict' else [ctx_dict, str(ctx_file)]
         if ctx_kind == 'dict':
             root_data['ctx_file_param'] = 'cf-{A}-{NUM}'
-        wit = {'vars': {k: repr(v) for k, v in vars_.items()}, 'as_object': as_object, 'root': {k: v for k, v in root_data.items() if k != 'tasks'},
+        wit = {'vars': {k: repr(v) for k, v in vars_.items()}, 'as_object': as_object, 'context_uses': ctx_uses, 'root': {k: v for k, v in root_data.items() if k != 'tasks'},
                'ctx_kind': ctx_kind, 'fmt': fmt}
         def with_object(data):
             data = copy.deepcopy(data)
@@ -367,7 +372,10 @@ def check_config_case(rng, res: CaseResult):
             'lst': [vars_['A'], [vars_['B'] * 2, 5, None], {'m': str(vars_['NUM'])}],
             'ctx_file_param': ref_sub('cf-{A}-{NUM}', vars_),
             'pth': ['PosixPath', str(Path(ref_sub('{STORE}/models', vars_)))],
+            'ctx_used_param': ref_sub('cu-{A}-{U}', vars_) if ctx_uses else None,
         }
+        if ctx_uses:
+            res.count('context_uses_paths_with_placeholder')
         got = json.loads(json.dumps(v))
         for k in exp:
             if got.get(k) != exp[k]:
